@@ -4,53 +4,54 @@ import EAO.Lemmas.CoarseBuild
 /-!
 # C13 for the builders: a contract / transport with an own, coarser frequency is the fine one plus "same rate"
 
-Property theorems only; helper lemmas in `EAO/Lemmas/CoarseBuild.lean`.
+Property theorems only; helper lemmas in `EAO/Lemmas/CoarseBuild.lean`, the model of the `freq` path of
+`SimpleContract.setup_optim_problem` / `Transport.setup_optim_problem` in `EAO/Model/CoarseBuild.lean`.
+
+The coarse builder works on the coarse restricted grid `cg` (one variable per coarse step, price = plain mean over the
+minor steps, capacities / extra costs / discount factor sampled at the first minor step, `dt` of the coarse step) and
+extends its mapping to the minor grid with the weights `dt_fine/dt_coarse`.  It is compared with THE FINE PROBLEM
+(`fineSimpleContract`, `fineTransport`): the `freq=None` builder's tail (`simpleCore`, `transportCore`; by
+`builder_is_core` / `transport_builder_is_core` the `freq=None` builders ARE these tails applied to the sampled series)
+on the fine steps of the coarse grid (`minorGrid`; by `minorGrid_eq_restrict` this is `ref.restrict start end` for a
+window of whole coarse steps) with the price series replaced by its plain mean per coarse step.
+
+* `coarse_equiv_contract`, `coarse_equiv_transport` — under the hypotheses that are TRUE for the code
+  (`CoarseGrid.WellFormed`: what `Grid.coarsen` guarantees, `coarsen_wellFormed`; `EqualDiscount`: no discounting or equal
+  discount factors inside a coarse step — the complement is finding F-13h, `unequal_discount_witness`; `ConstInside`:
+  capacities and extra costs constant inside a coarse step — the complement is finding F-13i, `varying_limits_witness`;
+  scalars always are, `constInside_scalar`) the coarse problem is the fine problem plus the equalities "same RATE in all
+  fine steps of a coarse step", with explicit maps in both directions: every coarse point `z` expands
+  (`expand`: fine step `t` of coarse step `i` gets `z_i · dt_t/dt_i`) to a point that satisfies the equalities, is feasible
+  for the fine problem iff `z` is feasible for the coarse one, has the same cost (so the same value `-c·x`) and the same
+  dispatch read-out at every asset, node and FINE step; and every fine point satisfying the equalities is such an expansion.
+  One form for both problems: one variable per step, or `disp_in | disp_out` (`B` = 1 or 2 blocks).
+* `coarse_equiv_contract_grid` — the same from the grid up: top-level reference grid, cuts, scalar parameters; the only
+  hypothesis left about the data is `EqualDiscount`, which `equalDiscount_of_const` reduces to the reference's factors.
+* `coarse_weights_sum_one_builder`, `coarse_weights_sum_transport` — per coarse variable the factors of the mapping rows
+  the builder returns add up to 1 (to `-1 + efficiency` for a transport: −1 at the first node, the efficiency at the second).
+* `coarse_rate_constant`, `coarse_rate_constant_transport` — every mapping row puts `x · dt_fine/dt_coarse` on its fine step:
+  volume over step length is `x / dt_coarse` (times the node factor) at every minor step.
+
+NOT covered: windows that are not whole coarse steps lose their remainder (finding F-19b: the coarse grid then covers
+less than the fine asset's window; the theorems compare with the fine steps the coarse grid HAS); `Contract` with take
+periods (finding F-13g), `periodicity` together with `freq`.
 -/
 namespace EAO.C13B
 open EAO EAO.CoarseBuild
 
-theorem coarse_equiv_transport (p : TransportP) (ref : Grid) (cg : CoarseGrid) (prices : Prices) (fullT : Nat)
-    (Pc : AssetProblem) (hwf : cg.WellFormed ref.dt) (hdf : EqualDiscount ref cg)
-    (hc : buildCoarseTransport p cg ref.dt prices fullT = .ok Pc) :
-    ∃ Pf, fineTransport p ref cg prices fullT = .ok Pf ∧
-      Pc.n = cg.grid.T ∧ Pf.n = (minorGrid ref cg).T ∧
-      (∀ z : Vec,
-        SameRate cg.owner (minorGrid ref cg).dt Pf.n (expand cg.owner (cg.weights ref.dt) cg.grid.T z) ∧
-        (Pc.FeasibleRelaxed z ↔ Pf.FeasibleRelaxed (expand cg.owner (cg.weights ref.dt) cg.grid.T z)) ∧
-        costAt Pf.c 0 (expand cg.owner (cg.weights ref.dt) cg.grid.T z) = costAt Pc.c 0 z ∧
-        ∀ a n t, dispatchOut Pf.mapping a n t (expand cg.owner (cg.weights ref.dt) cg.grid.T z)
-          = dispatchOut Pc.mapping a n t z) ∧
-      (∀ x : Vec, SameRate cg.owner (minorGrid ref cg).dt Pf.n x →
-        ∃ z : Vec, ∀ j, j < Pf.n → x j = expand cg.owner (cg.weights ref.dt) cg.grid.T z j) := by
-  obtain ⟨n0, n1, cts, hn, h1, h2, hcts, hfl, rfl⟩ := buildCoarseTransport_ok hc
-  have hlen := coarseCosts_length hcts
-  have hflF : trFlags p (minorGrid ref cg) (spreadList cg.owner cts) = true := by
-    rw [(trFlags_spread hwf p cts hlen).2]; exact hfl
-  have hf : fineTransport p ref cg prices fullT = .ok (trProblem p (minorGrid ref cg) n0 n1 (spreadList cg.owner cts)) := by
-    unfold fineTransport
-    rw [hn]
-    simp only [bind, Except.bind, pure, Except.pure, hcts]
-    rw [if_neg h1, if_neg (by simpa using h2)]
-    exact transportCore_of_flags p n0 n1 _ _ hflF
-  have S := spread_of_wf hwf
-  have SP := transport_spread hwf hdf p n0 n1 cts hlen
-  have hnF : (trProblem p (minorGrid ref cg) n0 n1 (spreadList cg.owner cts)).n = cg.owner.length * 1 := SP.cLenF
-  refine ⟨_, hf, ?_, ?_, ?_, ?_⟩
-  · have := SP.cLenC; simpa [AssetProblem.n] using this
-  · rw [hnF, minorGrid_T]; omega
-  · intro z
-    have E := spreadProblem_equiv S SP z (expand cg.owner (cg.weights ref.dt) cg.grid.T z) (expand_hx 1 z)
-    refine ⟨?_, E.1, E.2.1, E.2.2⟩
-    rw [hnF]; exact sameRate_expand_cg 1 z
-  · intro x hx
-    rw [hnF] at hx ⊢
-    exact expand_surj_cg hwf 1 x hx
+/-! ### the main theorems -/
 
+/-- **C13 `coarse_equiv_contract`.**  `Pc` = what `SimpleContract(freq=f)` builds on the coarse grid `cg` of the full grid
+    `ref`; then the fine problem `Pf` (same asset without `freq` on the fine steps of `cg`, price series averaged per coarse
+    step) is built too (`fine_builds`).  `B` blocks of variables (1: `disp`, 2: `disp_in | disp_out`), the same for both.  For every coarse point `z`
+    and its expansion `x = expand … z`: `x` has the same rate inside every coarse step; `z` feasible ⇔ `x` feasible; same
+    cost; same dispatch at every asset, node and fine step.  Every fine point with the same rate inside every coarse step
+    is an expansion. -/
 theorem coarse_equiv_contract (p : ContractP) (ref : Grid) (cg : CoarseGrid) (prices : Prices) (fullT : Nat)
-    (Pc Pf : AssetProblem) (hwf : cg.WellFormed ref.dt) (hdf : EqualDiscount ref cg)
+    (Pc : AssetProblem) (hwf : cg.WellFormed ref.dt) (hdf : EqualDiscount ref cg)
     (hcap : ConstInside p ref cg prices)
-    (hc : buildCoarseSimpleContract p cg ref.dt prices fullT = .ok Pc)
-    (hf : fineSimpleContract p ref cg prices fullT = .ok Pf) :
+    (hc : buildCoarseSimpleContract p cg ref.dt prices fullT = .ok Pc) :
+    ∃ Pf, fineSimpleContract p ref cg prices fullT = .ok Pf ∧
     ∃ B, (B = 1 ∨ B = 2) ∧ Pc.n = cg.grid.T * B ∧ Pf.n = (minorGrid ref cg).T * B ∧
       (∀ z : Vec,
         SameRate cg.owner (minorGrid ref cg).dt Pf.n (expand cg.owner (cg.weights ref.dt) cg.grid.T z) ∧
@@ -60,6 +61,9 @@ theorem coarse_equiv_contract (p : ContractP) (ref : Grid) (cg : CoarseGrid) (pr
           = dispatchOut Pc.mapping a n t z) ∧
       (∀ x : Vec, SameRate cg.owner (minorGrid ref cg).dt Pf.n x →
         ∃ z : Vec, ∀ j, j < Pf.n → x j = expand cg.owner (cg.weights ref.dt) cg.grid.T z j) := by
+  obtain ⟨Pf, hf0⟩ := fine_builds hwf hcap hc
+  refine ⟨Pf, hf0, ?_⟩
+  have hf := hf0
   obtain ⟨hill, price, a, hprice, ha, rfl⟩ := buildCoarseSimpleContract_ok hc
   rw [fineSimpleContract_eq hill hprice] at hf
   obtain ⟨dC, minOC, maxOC, ecOC, hpC, hvC, heC, hmiC, hmaC, ⟨restC, hnC⟩, rfl⟩ := simpleCore_ok ha
@@ -101,4 +105,352 @@ theorem coarse_equiv_contract (p : ContractP) (ref : Grid) (cg : CoarseGrid) (pr
     simp only [h1, h1F]
     exact ⟨2, Or.inr rfl, main 2 _ _ (scTwo_spread hwf hdf p D)⟩
 
+/-- **C13 `coarse_equiv_transport`.**  The same for `Transport(freq=f)`; here the fine problem is shown to EXIST (the
+    sign / zero tests that make `Transport.setup_optim_problem` refuse a problem have the same outcome on both grids). -/
+theorem coarse_equiv_transport (p : TransportP) (ref : Grid) (cg : CoarseGrid) (prices : Prices) (fullT : Nat)
+    (Pc : AssetProblem) (hwf : cg.WellFormed ref.dt) (hdf : EqualDiscount ref cg)
+    (hc : buildCoarseTransport p cg ref.dt prices fullT = .ok Pc) :
+    ∃ Pf, fineTransport p ref cg prices fullT = .ok Pf ∧
+      Pc.n = cg.grid.T ∧ Pf.n = (minorGrid ref cg).T ∧
+      (∀ z : Vec,
+        SameRate cg.owner (minorGrid ref cg).dt Pf.n (expand cg.owner (cg.weights ref.dt) cg.grid.T z) ∧
+        (Pc.FeasibleRelaxed z ↔ Pf.FeasibleRelaxed (expand cg.owner (cg.weights ref.dt) cg.grid.T z)) ∧
+        costAt Pf.c 0 (expand cg.owner (cg.weights ref.dt) cg.grid.T z) = costAt Pc.c 0 z ∧
+        ∀ a n t, dispatchOut Pf.mapping a n t (expand cg.owner (cg.weights ref.dt) cg.grid.T z)
+          = dispatchOut Pc.mapping a n t z) ∧
+      (∀ x : Vec, SameRate cg.owner (minorGrid ref cg).dt Pf.n x →
+        ∃ z : Vec, ∀ j, j < Pf.n → x j = expand cg.owner (cg.weights ref.dt) cg.grid.T z j) := by
+  obtain ⟨n0, n1, cts, hn, h1, h2, hcts, hfl, rfl⟩ := buildCoarseTransport_ok hc
+  have hlen := coarseCosts_length hcts
+  have hflF : trFlags p (minorGrid ref cg) (spreadList cg.owner cts) = true := by
+    rw [(trFlags_spread hwf p cts hlen).2]; exact hfl
+  have hf : fineTransport p ref cg prices fullT = .ok (trProblem p (minorGrid ref cg) n0 n1 (spreadList cg.owner cts)) := by
+    unfold fineTransport
+    rw [hn]
+    simp only [bind, Except.bind, hcts]
+    rw [if_neg h1, if_neg (by simpa using h2)]
+    exact transportCore_of_flags p n0 n1 _ _ hflF
+  have S := spread_of_wf hwf
+  have SP := transport_spread hwf hdf p n0 n1 cts hlen
+  have hnF : (trProblem p (minorGrid ref cg) n0 n1 (spreadList cg.owner cts)).n = cg.owner.length * 1 := SP.cLenF
+  refine ⟨_, hf, ?_, ?_, ?_, ?_⟩
+  · have := SP.cLenC; simpa [AssetProblem.n] using this
+  · rw [hnF, minorGrid_T]; omega
+  · intro z
+    have E := spreadProblem_equiv S SP z (expand cg.owner (cg.weights ref.dt) cg.grid.T z) (expand_hx 1 z)
+    refine ⟨?_, E.1, E.2.1, E.2.2⟩
+    rw [hnF]; exact sameRate_expand_cg 1 z
+  · intro x hx
+    rw [hnF] at hx ⊢
+    exact expand_surj_cg hwf 1 x hx
+
+/-! ### the hypotheses are true for the code -/
+
+/-- what `Grid.coarsen` makes of a top-level grid (indices `0…T-1`, positive step lengths, increasing points) along
+    non-decreasing cuts is well formed in the sense the builders need -/
+theorem coarsen_wellFormed (ref : Grid) (cuts : List Int) (cg : CoarseGrid) (htl : ref.TopLevel)
+    (h : ref.coarsen cuts = .ok cg) (hc : cuts.Pairwise (· ≤ ·)) : cg.WellFormed ref.dt :=
+  coarsen_wellFormed' ref cuts cg htl h hc
+
+/-- the discount factor of a coarse step is the reference's factor at one of its minor steps (the first); so equal
+    factors inside every coarse step of the REFERENCE grid (e.g. no discounting: all 1) give `EqualDiscount` -/
+theorem equalDiscount_of_const (ref : Grid) (cuts : List Int) (cg : CoarseGrid) (htl : ref.TopLevel)
+    (h : ref.coarsen cuts = .ok cg)
+    (hconst : ∀ i, i < cg.minor.length → ∀ t, t ∈ cg.minor.getD i [] → ∀ t', t' ∈ cg.minor.getD i [] →
+      ref.df.getD t 0 = ref.df.getD t' 0) : EqualDiscount ref cg := by
+  intro i hi t ht
+  obtain ⟨t0, ht0, he⟩ := coarsen_df ref cuts cg htl h i hi
+  rw [he]
+  exact hconst i hi t ht t0 ht0
+
+/-- constant capacities and extra costs are constant inside every coarse step -/
+theorem constInside_scalar (p : ContractP) (ref : Grid) (cg : CoarseGrid) (prices : Prices) (hwf : cg.WellFormed ref.dt)
+    (a b e : Rat) (hmin : p.minCap = .scalar a) (hmax : p.maxCap = .scalar b) (hec : p.extraCosts = .scalar e) :
+    ConstInside p ref cg prices := by
+  refine ⟨?_, ?_, ?_⟩
+  · rw [hmax]; exact baseVector_scalar_spread hwf b prices none
+  · rw [hmin]; exact baseVector_scalar_spread hwf a prices none
+  · rw [hec]; exact baseVector_scalar_spread hwf e prices (some 0)
+
+/-- whole coarse steps: when the first cut is the window's start and the last cut its end, the fine steps of the coarse
+    grid ARE the fine restricted grid of the same window (points, indices, `dt`, `Dt`, discount factors) -/
+theorem minorGrid_eq_restrict (ref : Grid) (cuts : List Int) (cg : CoarseGrid) (s e : Int) (htl : ref.TopLevel)
+    (h : ref.coarsen cuts = .ok cg) (hc : cuts.Pairwise (· ≤ ·))
+    (h0 : cuts.head? = some s) (hn : cuts.getLast? = some e) : minorGrid ref cg = ref.restrict s e := by
+  apply minorGrid_eq_restrict' ref cg s e htl
+  have hpts : ref.pts.Pairwise (· ≤ ·) := htl.pts.imp (fun h => by omega)
+  unfold Grid.coarsen at h
+  cases hcells : coarseCells ref cuts with
+  | error err => rw [hcells] at h; cases h
+  | ok cells =>
+    rw [hcells] at h
+    cases h
+    exact (coarseCells_cover ref hpts cuts cells hcells hc s e h0 hn).1
+
+/-- the `freq=None` builder is its tail applied to the sampled price series -/
+theorem builder_is_core (p : ContractP) (g : Grid) (prices : Prices) (fullT : Nat) :
+    buildSimpleContract p g prices fullT
+      = (if scalarIllPosed p.minCap p.maxCap then throw .illPosed
+         else priceVector p.price g prices fullT >>= simpleCore p g prices) :=
+  buildSimpleContract_eq_core p g prices fullT
+
+theorem transport_builder_is_core (p : TransportP) (g : Grid) (prices : Prices) (fullT : Nat) (n0 n1 : String)
+    (hn : p.nodes = [n0, n1]) :
+    buildTransport p g prices fullT
+      = (if p.maxCap < p.minCap then throw .assertion
+         else if ¬ (0 < p.efficiency) then throw .assertion
+         else transportCosts p.costsKey g prices fullT >>= transportCore p n0 n1 g) :=
+  buildTransport_eq_core p g prices fullT n0 n1 hn
+
+/-- **from the grid up**: top-level reference grid, cuts of whole coarse steps `[s, e)`, constant capacities and extra
+    costs.  The fine problem then lives on `ref.restrict s e`, and the only hypothesis about the data is equal discounting
+    inside the coarse steps. -/
+theorem coarse_equiv_contract_grid (p : ContractP) (ref : Grid) (cuts : List Int) (cg : CoarseGrid) (s e : Int)
+    (prices : Prices) (fullT : Nat) (Pc : AssetProblem) (a b ec : Rat)
+    (htl : ref.TopLevel) (hco : ref.coarsen cuts = .ok cg) (hcuts : cuts.Pairwise (· ≤ ·))
+    (h0 : cuts.head? = some s) (hn : cuts.getLast? = some e)
+    (hmin : p.minCap = .scalar a) (hmax : p.maxCap = .scalar b) (hec : p.extraCosts = .scalar ec)
+    (hdf : EqualDiscount ref cg)
+    (hc : buildCoarseSimpleContract p cg ref.dt prices fullT = .ok Pc) :
+    minorGrid ref cg = ref.restrict s e ∧
+    ∃ Pf, fineSimpleContract p ref cg prices fullT = .ok Pf ∧
+    ∃ B, (B = 1 ∨ B = 2) ∧ Pc.n = cg.grid.T * B ∧ Pf.n = (ref.restrict s e).T * B ∧
+      (∀ z : Vec,
+        SameRate cg.owner (ref.restrict s e).dt Pf.n (expand cg.owner (cg.weights ref.dt) cg.grid.T z) ∧
+        (Pc.FeasibleRelaxed z ↔ Pf.FeasibleRelaxed (expand cg.owner (cg.weights ref.dt) cg.grid.T z)) ∧
+        costAt Pf.c 0 (expand cg.owner (cg.weights ref.dt) cg.grid.T z) = costAt Pc.c 0 z ∧
+        ∀ a n t, dispatchOut Pf.mapping a n t (expand cg.owner (cg.weights ref.dt) cg.grid.T z)
+          = dispatchOut Pc.mapping a n t z) ∧
+      (∀ x : Vec, SameRate cg.owner (ref.restrict s e).dt Pf.n x →
+        ∃ z : Vec, ∀ j, j < Pf.n → x j = expand cg.owner (cg.weights ref.dt) cg.grid.T z j) := by
+  have hwf := coarsen_wellFormed ref cuts cg htl hco hcuts
+  have hg := minorGrid_eq_restrict ref cuts cg s e htl hco hcuts h0 hn
+  have := coarse_equiv_contract p ref cg prices fullT Pc hwf hdf
+    (constInside_scalar p ref cg prices hwf a b ec hmin hmax hec) hc
+  rw [hg] at this
+  exact ⟨hg, this⟩
+
+/-! ### weights and rates of the mapping the coarse builders return -/
+
+/-- **`coarse_weights_sum_one_builder`.**  For every variable that has a mapping row, the factors of all its rows (one
+    per minor step of its coarse step) add up to one: the coarse variable's volume is distributed completely. -/
+theorem coarse_weights_sum_one_builder (p : ContractP) (ref : Grid) (cg : CoarseGrid) (prices : Prices) (fullT : Nat)
+    (Pc : AssetProblem) (hwf : cg.WellFormed ref.dt)
+    (hc : buildCoarseSimpleContract p cg ref.dt prices fullT = .ok Pc) (m : MapRow) (hm : m ∈ Pc.mapping) :
+    ((Pc.mapping.filter (fun r => r.var == m.var)).map (·.factor)).sum = 1 := by
+  obtain ⟨node, hM | hM⟩ := contract_mapping_form hwf hc
+  · rw [hM] at hm ⊢
+    obtain ⟨i, hi, _, hv, _⟩ := mem_extBlock _ _ _ _ _ _ hm
+    rw [extBlock_factor_sum hwf, if_pos (by rw [hv, ← hwf.minorLen]; omega)]
+  · rw [hM] at hm ⊢
+    rw [filter_sum_append, extBlock_factor_sum hwf, extBlock_factor_sum hwf]
+    rcases List.mem_append.mp hm with hm | hm
+    · obtain ⟨i, hi, _, hv, _⟩ := mem_extBlock _ _ _ _ _ _ hm
+      rw [hwf.minorLen] at hi
+      rw [if_pos (by omega), if_neg (by omega)]; grind
+    · obtain ⟨i, hi, _, hv, _⟩ := mem_extBlock _ _ _ _ _ _ hm
+      rw [hwf.minorLen] at hi
+      rw [if_neg (by omega), if_pos (by omega)]; grind
+
+/-- for a transport every variable has its rows at both nodes: factors `-1·w` and `efficiency·w`, adding up to
+    `-1 + efficiency` -/
+theorem coarse_weights_sum_transport (p : TransportP) (ref : Grid) (cg : CoarseGrid) (prices : Prices) (fullT : Nat)
+    (Pc : AssetProblem) (hwf : cg.WellFormed ref.dt)
+    (hc : buildCoarseTransport p cg ref.dt prices fullT = .ok Pc) (m : MapRow) (hm : m ∈ Pc.mapping) :
+    ((Pc.mapping.filter (fun r => r.var == m.var)).map (·.factor)).sum = -1 + p.efficiency := by
+  obtain ⟨n0, n1, _, hM⟩ := transport_mapping_form hwf hc
+  rw [hM] at hm ⊢
+  rw [filter_sum_append, extBlock_factor_sum hwf, extBlock_factor_sum hwf]
+  rcases List.mem_append.mp hm with hm | hm
+  · obtain ⟨i, hi, _, hv, _⟩ := mem_extBlock _ _ _ _ _ _ hm
+    rw [hwf.minorLen] at hi
+    rw [if_pos (by omega), if_pos (by omega)]
+  · obtain ⟨i, hi, _, hv, _⟩ := mem_extBlock _ _ _ _ _ _ hm
+    rw [hwf.minorLen] at hi
+    rw [if_pos (by omega), if_pos (by omega)]
+
+/-- **`coarse_rate_constant`.**  Every mapping row of the coarse contract belongs to a coarse step `i`, sits on one of
+    its minor steps, carries the factor `dt_fine/dt_coarse`, and so puts `x · dt_fine/dt_coarse` on its fine step: the rate
+    (volume over step length) is `x/dt_coarse` at every minor step. -/
+theorem coarse_rate_constant (p : ContractP) (ref : Grid) (cg : CoarseGrid) (prices : Prices) (fullT : Nat)
+    (Pc : AssetProblem) (hwf : cg.WellFormed ref.dt)
+    (hc : buildCoarseSimpleContract p cg ref.dt prices fullT = .ok Pc) (m : MapRow) (hm : m ∈ Pc.mapping) :
+    ∃ i, i < cg.grid.T ∧ m.step ∈ cg.minor.getD i [] ∧ (m.var = i ∨ m.var = cg.grid.T + i) ∧
+      m.factor = ref.dt.getD m.step 0 / cg.grid.dt.getD i 0 ∧
+      ∀ x : Vec, m.contrib x = x m.var * (ref.dt.getD m.step 0 / cg.grid.dt.getD i 0) ∧
+        m.contrib x / ref.dt.getD m.step 0 = x m.var / cg.grid.dt.getD i 0 := by
+  have key : ∀ (node vn : String) (off : Nat), m ∈ cellMapFrom (extRow ref cg p.name node vn 1 off) 0 cg.minor →
+      (off = 0 ∨ off = cg.grid.T) →
+      ∃ i, i < cg.grid.T ∧ m.step ∈ cg.minor.getD i [] ∧ (m.var = i ∨ m.var = cg.grid.T + i) ∧
+        m.factor = ref.dt.getD m.step 0 / cg.grid.dt.getD i 0 ∧
+        ∀ x : Vec, m.contrib x = x m.var * (ref.dt.getD m.step 0 / cg.grid.dt.getD i 0) ∧
+          m.contrib x / ref.dt.getD m.step 0 = x m.var / cg.grid.dt.getD i 0 := by
+    intro node vn off hmem hoff
+    obtain ⟨i, hi, hs, hv, hf⟩ := mem_extBlock _ _ _ _ _ _ hmem
+    have hf' : m.factor = ref.dt.getD m.step 0 / cg.grid.dt.getD i 0 := by rw [hf]; grind
+    refine ⟨i, by rw [← hwf.minorLen]; exact hi, hs, ?_, hf', fun x => ⟨?_, ?_⟩⟩
+    · rcases hoff with rfl | rfl
+      · left; omega
+      · right; exact hv
+    · unfold MapRow.contrib; rw [hf']
+    · have := rate_of_row hwf m i hi hs 1 hf x
+      rw [this]; grind
+  obtain ⟨node, hM | hM⟩ := contract_mapping_form hwf hc
+  · rw [hM] at hm
+    exact key node "disp" 0 hm (Or.inl rfl)
+  · rw [hM] at hm
+    rcases List.mem_append.mp hm with hm | hm
+    · exact key node "disp_in" 0 hm (Or.inl rfl)
+    · exact key node "disp_out" cg.grid.T hm (Or.inr rfl)
+
+/-- the same for a transport: the row at the first node carries `-dt_fine/dt_coarse`, the one at the second
+    `efficiency · dt_fine/dt_coarse`; the rate at a node is `x · f / dt_coarse` at every minor step -/
+theorem coarse_rate_constant_transport (p : TransportP) (ref : Grid) (cg : CoarseGrid) (prices : Prices) (fullT : Nat)
+    (Pc : AssetProblem) (hwf : cg.WellFormed ref.dt)
+    (hc : buildCoarseTransport p cg ref.dt prices fullT = .ok Pc) (m : MapRow) (hm : m ∈ Pc.mapping) :
+    ∃ i f, i < cg.grid.T ∧ m.step ∈ cg.minor.getD i [] ∧ m.var = i ∧ (f = -1 ∨ f = p.efficiency) ∧
+      m.factor = ref.dt.getD m.step 0 / cg.grid.dt.getD i 0 * f ∧
+      ∀ x : Vec, m.contrib x / ref.dt.getD m.step 0 = x m.var * f / cg.grid.dt.getD i 0 := by
+  obtain ⟨n0, n1, _, hM⟩ := transport_mapping_form hwf hc
+  rw [hM] at hm
+  rcases List.mem_append.mp hm with hm | hm
+  · obtain ⟨i, hi, hs, hv, hf⟩ := mem_extBlock _ _ _ _ _ _ hm
+    exact ⟨i, -1, by rw [← hwf.minorLen]; exact hi, hs, by omega, Or.inl rfl, hf, fun x => rate_of_row hwf m i hi hs _ hf x⟩
+  · obtain ⟨i, hi, hs, hv, hf⟩ := mem_extBlock _ _ _ _ _ _ hm
+    exact ⟨i, p.efficiency, by rw [← hwf.minorLen]; exact hi, hs, by omega, Or.inr rfl, hf,
+      fun x => rate_of_row hwf m i hi hs _ hf x⟩
+
 end EAO.C13B
+
+/-! ### non-vacuity and the complements of the hypotheses (concrete instances, evaluated by the kernel) -/
+namespace EAO.C13B.Ex
+open EAO EAO.CoarseBuild
+
+/-- hourly grid of 4 steps (main time unit hour), no discounting -/
+def ref4 : Grid := Grid.ofTicks 0 14400 3600 3600 [1, 1, 1, 1]
+
+/-- the cuts of a 2-hour frequency over the whole grid -/
+def cuts2 : List Int := [0, 7200, 14400]
+
+/-- its coarse grid: two steps of two hours -/
+def cg2 : CoarseGrid :=
+  { grid := { pts := [0, 7200], idx := [0, 2], dt := [2, 2], Dt := [1, 3], df := [1, 1] }, minor := [[0, 1], [2, 3]] }
+
+example : ref4.coarsen cuts2 = .ok cg2 := by decide +kernel
+
+theorem ref4_top : ref4.TopLevel :=
+  ⟨by decide +kernel, by decide +kernel, by decide +kernel, by decide +kernel, by decide +kernel, by decide +kernel⟩
+
+theorem cg2_wf : cg2.WellFormed ref4.dt :=
+  coarsen_wellFormed ref4 cuts2 cg2 ref4_top (by decide +kernel) (by decide +kernel)
+
+theorem cg2_df : EqualDiscount ref4 cg2 := by decide +kernel
+
+/-- buys and sells with a spread: two variables per step -/
+def pc : ContractP :=
+  { name := "c", nodes := ["n"], price := some "p", extraCosts := .scalar (1/2), minCap := .scalar (-1), maxCap := .scalar 2,
+    minTake := [], maxTake := [] }
+
+def prices4 : Prices := [("p", [1, 3, 2, 6])]
+
+theorem ok_of_isSome {ε α : Type} (e : Except ε α) (h : e.toOption.isSome = true) : ∃ a, e = .ok a := by
+  cases e with
+  | error _ => simp [Except.toOption] at h
+  | ok a => exact ⟨a, rfl⟩
+
+-- the coarse problem: means 2 and 4 of the price, limits −1·2 h and 2·2 h, weights 1/2 on every minor step
+example : (match buildCoarseSimpleContract pc cg2 ref4.dt prices4 4 with
+    | .ok P => P.c == [3/2, 7/2, 5/2, 9/2] && P.l == [-2, -2, 0, 0] && P.u == [0, 0, 4, 4] &&
+        P.mapping.map (fun m => (m.var, m.step, m.factor)) ==
+          [(0, 0, 1/2), (0, 1, 1/2), (1, 2, 1/2), (1, 3, 1/2), (2, 0, 1/2), (2, 1, 1/2), (3, 2, 1/2), (3, 3, 1/2)]
+    | .error _ => false) = true := by decide +kernel
+
+-- the fine problem: the price series [1,3,2,6] replaced by [2,2,4,4]
+example : (match fineSimpleContract pc ref4 cg2 prices4 4 with
+    | .ok P => P.c == [3/2, 3/2, 7/2, 7/2, 5/2, 5/2, 9/2, 9/2] && P.l == [-1, -1, -1, -1, 0, 0, 0, 0] &&
+        P.u == [0, 0, 0, 0, 2, 2, 2, 2]
+    | .error _ => false) = true := by decide +kernel
+
+example : cg2.owner = [0, 0, 1, 1] ∧ cg2.weights ref4.dt = [1/2, 1/2, 1/2, 1/2] ∧
+    minorGrid ref4 cg2 = ref4.restrict 0 14400 := by decide +kernel
+
+/-- every hypothesis of `coarse_equiv_contract_grid` holds for this instance; the conclusion is the theorem's -/
+example : ∃ Pc Pf, buildCoarseSimpleContract pc cg2 ref4.dt prices4 4 = .ok Pc ∧
+    fineSimpleContract pc ref4 cg2 prices4 4 = .ok Pf ∧ Pc.n = 4 ∧ Pf.n = 8 ∧
+    ∀ z : Vec, (Pc.FeasibleRelaxed z ↔ Pf.FeasibleRelaxed (expand cg2.owner (cg2.weights ref4.dt) cg2.grid.T z)) ∧
+      costAt Pf.c 0 (expand cg2.owner (cg2.weights ref4.dt) cg2.grid.T z) = costAt Pc.c 0 z := by
+  obtain ⟨Pc, hc⟩ := ok_of_isSome (buildCoarseSimpleContract pc cg2 ref4.dt prices4 4) (by decide +kernel)
+  obtain ⟨_, Pf, hf, B, _, hnC, hnF, hz, _⟩ := coarse_equiv_contract_grid pc ref4 cuts2 cg2 0 14400 prices4 4 Pc (-1) 2 (1/2)
+    ref4_top (by decide +kernel) (by decide +kernel) rfl rfl rfl rfl rfl cg2_df hc
+  have h4 : Pc.n = 4 := by
+    have : (buildCoarseSimpleContract pc cg2 ref4.dt prices4 4).toOption.map (·.n) = some 4 := by decide +kernel
+    rw [hc] at this; simpa [Except.toOption] using this
+  have h8 : Pf.n = 8 := by
+    have : (fineSimpleContract pc ref4 cg2 prices4 4).toOption.map (·.n) = some 8 := by decide +kernel
+    rw [hf] at this; simpa [Except.toOption] using this
+  exact ⟨Pc, Pf, hc, hf, h4, h8, fun z => ⟨(hz z).2.1, (hz z).2.2.1⟩⟩
+
+/-- a transport (efficiency 1/2, costs 1 + series) on the same grids -/
+def pt : TransportP :=
+  { name := "t", nodes := ["a", "b"], costsConst := 1, costsKey := some "p", minCap := 0, maxCap := 3, efficiency := 1/2,
+    minTake := [], maxTake := [] }
+
+example : (match buildCoarseTransport pt cg2 ref4.dt prices4 4 with
+    | .ok P => P.c == [3, 5] && P.u == [6, 6] &&
+        P.mapping.map (fun m => (m.var, m.node, m.step, m.factor)) ==
+          [(0, some "a", 0, -1/2), (0, some "a", 1, -1/2), (1, some "a", 2, -1/2), (1, some "a", 3, -1/2),
+           (0, some "b", 0, 1/4), (0, some "b", 1, 1/4), (1, some "b", 2, 1/4), (1, some "b", 3, 1/4)]
+    | .error _ => false) = true := by decide +kernel
+
+example : ∃ Pc Pf, buildCoarseTransport pt cg2 ref4.dt prices4 4 = .ok Pc ∧ fineTransport pt ref4 cg2 prices4 4 = .ok Pf ∧
+    ∀ z : Vec, costAt Pf.c 0 (expand cg2.owner (cg2.weights ref4.dt) cg2.grid.T z) = costAt Pc.c 0 z := by
+  obtain ⟨Pc, hc⟩ := ok_of_isSome (buildCoarseTransport pt cg2 ref4.dt prices4 4) (by decide +kernel)
+  obtain ⟨Pf, hf, _, _, hz, _⟩ := coarse_equiv_transport pt ref4 cg2 prices4 4 Pc cg2_wf cg2_df hc
+  exact ⟨Pc, Pf, hc, hf, fun z => (hz z).2.2.1⟩
+
+/-! the complements: where a hypothesis fails the statement fails (recorded findings) -/
+
+/-- discount factors 1, 1/2, 1, 1/2 on the fine steps: the coarse steps carry the factor of their FIRST minor step -/
+def ref4d : Grid := Grid.ofTicks 0 14400 3600 3600 [1, 1/2, 1, 1/2]
+
+example : ref4d.coarsen cuts2 = .ok cg2 := by decide +kernel
+
+def pflat : ContractP :=
+  { name := "c", nodes := ["n"], price := some "q", extraCosts := .scalar 0, minCap := .scalar 0, maxCap := .scalar 1,
+    minTake := [], maxTake := [] }
+
+/-- **F-13h on the model** (`EqualDiscount` fails): price 1 everywhere, the coarse point `z = (2, 0)` costs 2 in the
+    coarse problem and 3/2 in the fine one at its expansion `(1, 1, 0, 0)` -/
+theorem unequal_discount_witness :
+    (match buildCoarseSimpleContract pflat cg2 ref4d.dt [("q", [1, 1, 1, 1])] 4,
+           fineSimpleContract pflat ref4d cg2 [("q", [1, 1, 1, 1])] 4 with
+     | .ok Pc, .ok Pf =>
+       costAt Pc.c 0 (fun j => if j = 0 then 2 else 0) == 2 &&
+       costAt Pf.c 0 (expand cg2.owner (cg2.weights ref4d.dt) cg2.grid.T (fun j => if j = 0 then 2 else 0)) == 3/2
+     | _, _ => false) = true ∧ ¬ EqualDiscount ref4d cg2 := by
+  constructor
+  · decide +kernel
+  · decide +kernel
+
+/-- capacity given as a series that varies inside the coarse steps -/
+def pvar : ContractP :=
+  { name := "c", nodes := ["n"], price := none, extraCosts := .scalar 0, minCap := .scalar 0, maxCap := .key "m",
+    minTake := [], maxTake := [] }
+
+/-- **F-13i on the model** (`ConstInside` fails): capacity series 3, 1, 3, 1: the coarse limit is 3 · 2 h = 6 (value at
+    the first minor step), the coarse point `z = (6, 0)` is within it, but its expansion puts 3 on the second fine
+    step whose limit is 1 -/
+theorem varying_limits_witness :
+    (match buildCoarseSimpleContract pvar cg2 ref4.dt [("m", [3, 1, 3, 1])] 4,
+           fineSimpleContract pvar ref4 cg2 [("m", [3, 1, 3, 1])] 4 with
+     | .ok Pc, .ok Pf =>
+       Pc.u == [6, 6] && Pf.u == [3, 1, 3, 1] &&
+       expand cg2.owner (cg2.weights ref4.dt) cg2.grid.T (fun j => if j = 0 then 6 else 0) 1 == 3
+     | _, _ => false) = true ∧
+    baseVector pvar.maxCap (minorGrid ref4 cg2) [("m", [3, 1, 3, 1])] none
+      ≠ (baseVector pvar.maxCap cg2.grid [("m", [3, 1, 3, 1])] none).map (spreadO cg2.owner) := by
+  constructor
+  · decide +kernel
+  · decide +kernel
+
+end EAO.C13B.Ex
